@@ -26,7 +26,7 @@ impl LintPass for DeadValueCheck {
                 // that item is found
                 let mut ranges = Vec::new();
                 for item in &out {
-                    ranges.append(&mut Cfg::error_ranges_for_first_usage(&node, item));
+                    ranges.append(&mut cfg.error_ranges_for_first_usage(&node, item));
                 }
                 for item in ranges {
                     errors.push(LintError::InvalidUseAfterCall(
@@ -57,7 +57,7 @@ impl LintPass for DeadValueCheck {
             if let Some((_, results)) = node.known_ecall_signature() {
                 let out = (Register::caller_saved_set() - results) & node.live_out();
                 for item in &out {
-                    for range in Cfg::error_ranges_for_first_usage(&node, item) {
+                    for range in cfg.error_ranges_for_first_usage(&node, item) {
                         let place = (range.file(), range.range());
                         if !reported.contains(&place) {
                             reported.push(place);
